@@ -193,96 +193,114 @@ func c12c(c *Ctx, v *variants.Variant) {
 		r.Fatal("variant %s: parse not found", vn)
 		return
 	}
-	var call *ast.CallExpr
-	for _, ce := range callsIn(fd) {
-		if callSel(ce) == "addErrAt" && len(ce.Args) == 3 && strings.Contains(nospace(ce.Args[0]), "nomatchfound") {
-			call = ce
+	w := v.Where(fd.Pos())
+	// on the normalised paths of parse (helpers expanded): where the 'no match found' error is recorded
+	// only the top-level statement of parse that leads to the error is enumerated (parse as a whole has thousands of paths)
+	holder := map[string]bool{}
+	for _, f := range v.Funcs() {
+		if f.Body == nil {
+			continue
+		}
+		ast.Inspect(f.Body, func(n ast.Node) bool {
+			if bl, ok := n.(*ast.BasicLit); ok && strings.Contains(bl.Value, "no match found") {
+				holder[f.Name.Name] = true
+			}
+			return true
+		})
+	}
+	var stmt ast.Stmt
+	for _, st := range fd.Body.List {
+		found := false
+		ast.Inspect(st, func(n ast.Node) bool {
+			switch x := n.(type) {
+			case *ast.BasicLit:
+				if strings.Contains(x.Value, "no match found") {
+					found = true
+				}
+			case *ast.CallExpr:
+				if holder[callSel(x)] && callSel(x) != fd.Name.Name {
+					found = true
+				}
+			}
+			return true
+		})
+		if found {
+			stmt = st
 		}
 	}
-	w := v.Where(fd.Pos())
-	if call == nil {
+	if stmt == nil {
 		r.Bad("C12-c", "T.parse:no-match-error", vn, w, "no addErrAt call carrying the 'no match found' message")
 		return
 	}
+	paths := c.vnorm(v).without("addErrAt", "addErr").normBlock(fd, []ast.Stmt{stmt})
 	var bad []string
-	g := guardsOf(fd.Body, call.Pos())
-	gs := strings.Join(g, " ; ")
-	if !(len(g) == 2 && g[0] == "!ok" && g[1] == "len(*p.errs)==0") {
-		bad = append(bad, "guards are ["+gs+"], expected !ok ; len(*p.errs)==0")
-	}
-	if nospace(call.Args[1]) != "p.maxFailPos" {
-		bad = append(bad, "position argument is "+nospace(call.Args[1])+", not p.maxFailPos")
-	}
-	listVar := nospace(call.Args[2])
-	if !strings.Contains(nospace(call.Args[0]), "listJoin("+listVar+",") {
-		bad = append(bad, "message is not listJoin of the expected list "+listVar)
-	}
-	// ordering inside the enclosing block
-	var blk *ast.BlockStmt
-	ast.Inspect(fd.Body, func(n ast.Node) bool {
-		if b, ok := n.(*ast.BlockStmt); ok && contains(b, call.Pos()) {
-			blk = b
+	n := 0
+	for _, p := range paths {
+		iErr := p.evIndex("call", 0, func(t string) bool { return strings.HasPrefix(t, "p.addErrAt(") && strings.Contains(t, "no match found") })
+		if iErr < 0 {
+			continue
 		}
-		return true
-	})
-	mapVar := ""
-	stage := 0 // 0 start, 1 map filled from maxFailExpected, 2 "!." removed, 3 list filled from map, 4 sorted, 5 EOF appended
-	for _, st := range blk.List {
-		switch x := st.(type) {
-		case *ast.RangeStmt:
-			src := nospace(x.X)
-			if src == "p.maxFailExpected" && stage == 0 {
-				// body: m[v] = struct{}{}
-				if as, ok := x.Body.List[0].(*ast.AssignStmt); ok {
-					if ix, ok := as.Lhs[0].(*ast.IndexExpr); ok && nospace(ix.Index) == nospace(x.Value) {
-						mapVar = nospace(ix.X)
-						stage = 1
-					}
-				}
-			} else if src == mapVar && stage >= 1 && stage <= 2 {
-				if as, ok := x.Body.List[0].(*ast.AssignStmt); ok && nospace(as.Lhs[0]) == listVar && nospace(as.Rhs[0]) == "append("+listVar+","+nospace(x.Key)+")" {
-					stage = 3
-				}
-			}
-		case *ast.IfStmt:
-			t := nospace(x.Cond)
-			if stage == 1 && strings.Contains(t, mapVar+`["!."]`) {
-				del := false
-				for _, ce := range callsIn(x.Body) {
-					if callName(ce) == "delete" && nospace(ce.Args[0]) == mapVar && nospace(ce.Args[1]) == `"!."` {
-						del = true
-					}
-				}
-				if del {
-					stage = 2
-				}
-			}
-			if stage == 4 {
-				for _, ce := range callsIn(x.Body) {
-					if callName(ce) == "append" && len(ce.Args) == 2 && nospace(ce.Args[1]) == `"EOF"` {
-						stage = 5
-					}
-				}
-			}
-		case *ast.ExprStmt:
-			if ce, ok := x.X.(*ast.CallExpr); ok {
-				if callName(ce) == "sort.Strings" && nospace(ce.Args[0]) == listVar && stage == 3 {
-					stage = 4
-				}
-				if ce == call && stage < 4 {
-					bad = append(bad, "the expected list reaches the message before sort.Strings (map iteration order would leak into the error text)")
-				}
+		n++
+		args := splitTop(strings.TrimSuffix(strings.TrimPrefix(p[iErr].Text, "p.addErrAt("), ")"), ",")
+		if len(args) != 3 {
+			bad = append(bad, "unexpected arguments of addErrAt")
+			continue
+		}
+		list := args[2]
+		if args[1] != "p.maxFailPos" {
+			bad = append(bad, "position argument is "+args[1]+", not p.maxFailPos")
+		}
+		if !strings.Contains(args[0], "listJoin("+list+",") {
+			bad = append(bad, "message is not listJoin of the expected list "+list)
+		}
+		// guards: the start rule failed and no other error was recorded
+		before := p[:iErr]
+		noErrs := before.holds("len(*p.errs)==0")
+		failed := false
+		for _, f := range before.facts() {
+			if strings.HasPrefix(f, "!") && (dollarRe.MatchString(f) || strings.Contains(f, "res1(") || strings.Contains(f, "ok")) && !strings.Contains(f, "p.debug") && !strings.Contains(f, "p.recover") && !strings.Contains(f, "ok(") {
+				failed = true
 			}
 		}
+		if !noErrs || !failed {
+			bad = append(bad, "the error is recorded under ["+strings.Join(before.facts(), " ")+"], expected: the start rule failed and the error list is empty")
+		}
+		// pipeline on this path, in order
+		iFill := -1
+		setVar := ""
+		for i, e := range before {
+			if e.Kind == "set" && strings.HasSuffix(e.Text, "[p.maxFailExpected[#1]]=struct{}{}") {
+				iFill = i
+				setVar = e.Text[:strings.Index(e.Text, "[")]
+			}
+		}
+		iList := before.evIndex("set", 0, func(t string) bool { return setVar != "" && strings.HasPrefix(t, list+"=append("+list+",#") })
+		iSort := before.evIndex("call", 0, func(t string) bool { return t == "sort.Strings("+list+")" })
+		iEOF := before.evIndex("set", 0, func(t string) bool { return t == list+"=append("+list+",\"EOF\")" })
+		hasEOFMark := setVar != "" && before.holds("ok("+setVar+"[\"!.\"])")
+		iDel := before.evIndex("call", 0, func(t string) bool { return t == "delete("+setVar+",\"!.\")" })
+		switch {
+		case iFill < 0:
+			bad = append(bad, "the expected labels are not de-duplicated through a set")
+		case iList < iFill:
+			bad = append(bad, "the list is not built from the de-duplicated set")
+		case iSort < iList:
+			bad = append(bad, "the expected list reaches the message before sort.Strings (map iteration order would leak into the error text)")
+		case hasEOFMark && !(iDel > iFill && iDel < iList && iEOF > iSort):
+			bad = append(bad, "the end-of-input marker \"!.\" must be removed from the set before the list is built and appended as EOF after sorting")
+		case !hasEOFMark && (iEOF >= 0 || iDel >= 0):
+			bad = append(bad, "EOF is reported although the end-of-input marker was not among the failures")
+		}
 	}
-	if stage != 5 {
-		bad = append(bad, fmt.Sprintf("pipeline incomplete (reached stage %d of: dedup map, !. removal, list from map, sort, EOF last)", stage))
+	if n == 0 {
+		r.Bad("C12-c", "T.parse:no-match-error", vn, w, "no addErrAt call carrying the 'no match found' message")
+		return
 	}
-	sort.Strings(bad)
+	bad = uniq(bad)
 	if len(bad) > 0 {
-		r.Bad("C12-c", "T.parse:no-match-error", vn, v.Where(call.Pos()), strings.Join(bad, "; "))
+		r.Bad("C12-c", "T.parse:no-match-error", vn, w, strings.Join(bad, "; "))
 	} else {
-		r.Ok("C12-c", "T.parse:no-match-error", vn, v.Where(call.Pos()), "guards "+gs+"; dedup → sort → EOF last → listJoin at p.maxFailPos")
+		r.Ok("C12-c", "T.parse:no-match-error", vn, w, fmt.Sprintf("%d paths: recorded iff the start rule failed without errors; dedup → sort → EOF last → listJoin at p.maxFailPos", n))
 	}
 }
 
@@ -294,73 +312,93 @@ func c12d(c *Ctx, v *variants.Variant) {
 		r.Fatal("variant %s: failAt not found", vn)
 		return
 	}
-	ps := fd.Type.Params.List
-	var names []string
-	for _, f := range ps {
-		for _, n := range f.Names {
-			names = append(names, n.Name)
-		}
-	}
+	names := paramNames(fd)
 	if len(names) != 3 {
 		r.Unk("C12-d", "T.failAt:shape", vn, v.Where(fd.Pos()), "unexpected parameter list")
 		return
 	}
-	fail, pos, want := names[0], names[1], names[2]
-	var bad []string
-	if len(fd.Body.List) != 1 {
-		bad = append(bad, "body is not a single guarded block")
+	fail, pos := names[0], names[1]
+	paths, multi := c.vnorm(v).normPathsNamed(fd)
+	want := names[2]
+	if w, ok := multi[want]; ok {
+		want = w
 	}
-	var earlyReturn, replace, truncate, prefix, appendOK bool
-	ast.Inspect(fd.Body, func(n ast.Node) bool {
-		switch x := n.(type) {
-		case *ast.ReturnStmt:
-			g := guardsOf(fd.Body, x.Pos())
-			if len(g) == 2 && (g[1] == pos+".offset<p.maxFailPos.offset" || g[1] == "p.maxFailPos.offset>"+pos+".offset") {
-				earlyReturn = true
-			} else {
-				bad = append(bad, "return under ["+strings.Join(g, ";")+"]")
+	var bad []string
+	nRecord := 0
+	for _, p := range paths {
+		sets := func(prefix string) []string {
+			var out []string
+			for _, e := range p {
+				if e.Kind == "set" && strings.HasPrefix(e.Text, prefix) {
+					out = append(out, e.Text)
+				}
 			}
-		case *ast.AssignStmt:
-			l, rr := nospace(x.Lhs[0]), nospace(x.Rhs[0])
-			g := guardsOf(fd.Body, x.Pos())
-			later := len(g) == 2 && (g[1] == pos+".offset>p.maxFailPos.offset" || g[1] == "p.maxFailPos.offset<"+pos+".offset")
-			switch {
-			case l == "p.maxFailPos":
-				if rr == pos && later {
-					replace = true
-				} else {
-					bad = append(bad, "p.maxFailPos = "+rr+" under ["+strings.Join(g, ";")+"]")
-				}
-			case l == "p.maxFailExpected" && rr == "p.maxFailExpected[:0]":
-				if later {
-					truncate = true
-				} else {
-					bad = append(bad, "list truncated under ["+strings.Join(g, ";")+"]")
-				}
-			case l == "p.maxFailExpected" && rr == "append(p.maxFailExpected,"+want+")":
-				if len(g) == 1 {
-					appendOK = true
-				} else {
-					bad = append(bad, "label appended under ["+strings.Join(g, ";")+"]")
-				}
-			case l == want:
-				if rr == `"!"+`+want && len(g) == 2 && g[1] == "p.maxFailInvertExpected" {
-					prefix = true
-				} else {
-					bad = append(bad, want+" = "+rr+" under ["+strings.Join(g, ";")+"]")
-				}
-			default:
-				bad = append(bad, "unexpected assignment "+l+" = "+rr)
+			return out
+		}
+		all := append(sets("p.maxFailPos"), sets("p.maxFailExpected")...)
+		relevant := p.holds(fail + "==p.maxFailInvertExpected")
+		switch {
+		case p.holds(fail + "!=p.maxFailInvertExpected"):
+			if len(all) > 0 {
+				bad = append(bad, "a result that does not count (fail != invert) changes the farthest-failure record")
 			}
-			if len(g) == 0 || (g[0] != fail+"==p.maxFailInvertExpected" && g[0] != "p.maxFailInvertExpected=="+fail) {
-				bad = append(bad, "statement not under "+fail+" == p.maxFailInvertExpected")
+			continue
+		case !relevant:
+			bad = append(bad, "a path does not compare "+fail+" with p.maxFailInvertExpected")
+			continue
+		}
+		earlier := p.holds(pos + ".offset<p.maxFailPos.offset")
+		farther := p.holds(pos + ".offset>p.maxFailPos.offset")
+		if earlier {
+			if len(all) > 0 {
+				bad = append(bad, "a failure before the farthest position changes the record")
+			}
+			continue
+		}
+		nRecord++
+		iApp := p.evIndex("set", 0, func(t string) bool { return strings.HasPrefix(t, "p.maxFailExpected=append(p.maxFailExpected,") })
+		if iApp < 0 {
+			bad = append(bad, "a counted failure at or beyond the farthest position is not appended to the expected list")
+			continue
+		}
+		iPos := p.evIndex("set", 0, func(t string) bool { return t == "p.maxFailPos="+pos })
+		iTrunc := p.evIndex("set", 0, func(t string) bool { return t == "p.maxFailExpected=p.maxFailExpected[:0]" })
+		if farther {
+			if iPos < 0 || iTrunc < 0 || iPos > iApp || iTrunc > iApp {
+				bad = append(bad, "a failure beyond the farthest position must replace the position and empty the list before it is appended")
+			}
+		} else {
+			if iPos >= 0 || iTrunc >= 0 {
+				bad = append(bad, "the record is reset although the failure is not beyond the farthest position")
+			}
+			// not beyond: it must be at the farthest position (an earlier failure is not part of the expected set)
+			if !(p.holds(pos+".offset>=p.maxFailPos.offset") || p.holds(pos+".offset==p.maxFailPos.offset")) {
+				bad = append(bad, "a failure is appended without excluding positions before the farthest one (facts: "+strings.Join(p.facts(), " ")+")")
 			}
 		}
-		return true
-	})
-	if !(earlyReturn && replace && truncate && prefix && appendOK) {
-		bad = append(bad, fmt.Sprintf("missing step: earlier-offset return=%t replace=%t truncate=%t !prefix=%t append=%t", earlyReturn, replace, truncate, prefix, appendOK))
+		// the label: prefixed with ! exactly inside a negative predicate
+		appended := strings.TrimSuffix(strings.TrimPrefix(p[iApp].Text, "p.maxFailExpected=append(p.maxFailExpected,"), ")")
+		marked := false
+		for _, e := range p[:iApp] {
+			if e.Kind == "set" && e.Text == want+`="!"+`+want {
+				marked = true
+			}
+		}
+		if strings.HasPrefix(appended, `"!"+`) {
+			marked = true
+			appended = strings.TrimPrefix(appended, `"!"+`)
+		}
+		if appended != want && appended != names[2] {
+			bad = append(bad, "what is appended is "+appended+", not the label of the terminal")
+		}
+		if marked != p.holds("p.maxFailInvertExpected") {
+			bad = append(bad, fmt.Sprintf("the label is marked with ! = %t on a path with [%s]", marked, strings.Join(p.facts(), " ")))
+		}
 	}
+	if nRecord == 0 {
+		bad = append(bad, "no path records a failure")
+	}
+	bad = uniq(bad)
 	sort.Strings(bad)
 	if len(bad) > 0 {
 		r.Bad("C12-d", "T.failAt:shape", vn, v.Where(fd.Pos()), strings.Join(bad, "; "))
